@@ -19,8 +19,12 @@ class Pair:
 
 
 def write_pair(dirpath, name, src_grid, ref_grid, src, ref, src_valid=None, ref_valid=None, dtype='float32',
-               src_kw=None, ref_kw=None):
-    """src, ref: (bands, h, w) arrays; *_valid: (h, w) bool or None; invalid pixels are written as NaN nodata"""
+               src_kw=None, ref_kw=None, src_nodata='nan', ref_nodata='nan'):
+    """
+    src, ref: (bands, h, w) arrays; *_valid: (h, w) bool or None.
+    *_nodata: 'nan' (NaN nodata), a number (numeric nodata written under invalid pixels) or 'mask' (no nodata value,
+    internal mask band; invalid pixels hold an arbitrary finite number).
+    """
     dirpath = pathlib.Path(dirpath)
     src = np.asarray(src, dtype='float64')
     ref = np.asarray(ref, dtype='float64')
@@ -30,12 +34,18 @@ def write_pair(dirpath, name, src_grid, ref_grid, src, ref, src_valid=None, ref_
         ref = ref[None]
     sv = np.ones(src.shape[1:], bool) if src_valid is None else np.asarray(src_valid, bool)
     rv = np.ones(ref.shape[1:], bool) if ref_valid is None else np.asarray(ref_valid, bool)
-    s, r = src.copy(), ref.copy()
-    s[:, ~sv] = np.nan
-    r[:, ~rv] = np.nan
     sp, rp = dirpath / f'{name}_src.tif', dirpath / f'{name}_ref.tif'
-    rasters.write_tif(sp, src_grid, s, dtype=dtype, nodata=float('nan'), **(src_kw or {}))
-    rasters.write_tif(rp, ref_grid, r, dtype=dtype, nodata=float('nan'), **(ref_kw or {}))
+    for path, grid, arr, valid, enc, kw in ((sp, src_grid, src, sv, src_nodata, src_kw), (rp, ref_grid, ref, rv, ref_nodata, ref_kw)):
+        a = arr.copy()
+        if enc == 'nan':
+            a[:, ~valid] = np.nan
+            rasters.write_tif(path, grid, a, dtype=dtype, nodata=float('nan'), **(kw or {}))
+        elif enc == 'mask':
+            a[:, ~valid] = 77.0
+            rasters.write_tif(path, grid, a, dtype=dtype, nodata=None, mask=valid, **(kw or {}))
+        else:
+            a[:, ~valid] = enc
+            rasters.write_tif(path, grid, a, dtype=dtype, nodata=enc, **(kw or {}))
     return Pair(sp, rp, src_grid, ref_grid, src, ref, sv, rv)
 
 
@@ -80,6 +90,20 @@ def run_fuse(src_path, ref_path, out_path, model='gain-blk-offset', kernel_shape
                 res.param_descriptions = ds.descriptions
     res.corr_path, res.param_path = out_path, param_path
     return res
+
+
+def run_fuse_blocks(halvings, src_grid, ref_grid, proc_ref, *args, **kwargs):
+    """run_fuse with `halvings` halvings of the processing window; fewer if the blocks would be smaller than the overlap"""
+    from homonim.errors import BlockSizeError
+    ph, pw = proc_window_shape(src_grid, ref_grid, proc_ref)
+    while True:
+        mbm = block_mem_for(halvings, ph, pw, src_grid.px, ref_grid.px, proc_ref)
+        try:
+            return run_fuse(*args, max_block_mem=mbm, **kwargs), halvings
+        except BlockSizeError:
+            if halvings <= 0:
+                raise
+            halvings = max(0, halvings - 2)
 
 
 def block_mem_for(n_halvings, proc_h, proc_w, src_px, ref_px, proc_ref):
